@@ -293,7 +293,7 @@ func RunC09(c *core.Ctx) {
 			mk(`{"n":"sub","c":"c2","k":"kAll","w":["a","b"],"syn":"ok","last":0,"win":"none"}`),
 			mk(`{"n":"pub","c":"c2","k":"kAll","w":["a"],"syn":"ok","me0":false,"ttl":3600,"via":"","retain":false,"qos":1,"p":"before"}`),
 			mk(fmt.Sprintf(`{"n":"hostile","c":"c2","cls":%q}`, cls)),
-			mk(`{"n":"pub","c":"c1","k":"kAll","w":["a"],"syn":"ok","me0":false,"ttl":0,"via":"","retain":false,"qos":1,"p":"after"}`),
+			mk(`{"n":"pub","c":"c1","k":"kAll","w":["a"],"syn":"ok","me0":false,"ttl":-1,"via":"","retain":false,"qos":1,"p":"after"}`),
 		}
 		jobs = append(jobs, childJob{Mode: "emitter", Lic: 1 + i%3, Storage: "inmemory", Label: fmt.Sprintf("class-%02d-%s", i, cls), Seed: int64(i), Walk: walk})
 	}
@@ -311,7 +311,7 @@ func RunC09(c *core.Ctx) {
 		for i := int(c.Seed) % step; i < n; i += step {
 			walk = append(walk, mk(fmt.Sprintf(`{"n":"cluster","fn":%q,"idx":%d}`, fn, i)))
 		}
-		walk = append(walk, mk(`{"n":"pub","c":"c1","k":"kAll","w":["a"],"syn":"ok","me0":false,"ttl":0,"via":"","retain":false,"qos":1,"p":"after"}`))
+		walk = append(walk, mk(`{"n":"pub","c":"c1","k":"kAll","w":["a"],"syn":"ok","me0":false,"ttl":-1,"via":"","retain":false,"qos":1,"p":"after"}`))
 		jobs = append(jobs, childJob{Mode: "emitter", Lic: 1, Storage: "inmemory", Label: "corpus-" + fn, Seed: 1, Walk: walk})
 	}
 	traces = runChildren(c, jobs, 6144)
